@@ -158,6 +158,8 @@ func main() {
 	timeoutS := flag.Int("timeout", 60, "per-query solver timeout (s)")
 	verbose := flag.Bool("v", false, "verbose")
 	smtlog := flag.String("smtlog", "", "log SMT text of worker 0 to this file")
+	replayPath := flag.String("replay", "", "concrete mode: run the entry named in this replay file on its values")
+	diffPath := flag.String("diffreplay", "", "engine debugging: run the replay file concretely and symbolically and report the first instruction whose value differs under the model")
 	flag.Parse()
 	debug.SetGCPercent(200)
 
@@ -204,6 +206,22 @@ func main() {
 		}
 	}
 
+	if *replayPath != "" {
+		rd, err := os.ReadFile(*replayPath)
+		if err != nil {
+			fail(err.Error())
+		}
+		globalReplay = &replayFile{}
+		if err := json.Unmarshal(rd, globalReplay); err != nil {
+			fail(err.Error())
+		}
+		*only = globalReplay.Entry
+		*workers = 1
+	}
+	if *diffPath != "" {
+		diffReplay(prog, cfg, funcByName, *diffPath, *tier, *solverKind, *timeoutS)
+		return
+	}
 	for _, e := range cfg.Entries {
 		if *only != "" && e.Name != *only {
 			continue
@@ -283,6 +301,8 @@ func loadProgram(cfg *Config) (*ssa.Program, map[string]bool, error) {
 	}
 	return prog, h, nil
 }
+
+var globalReplay *replayFile
 
 func newCtx(prog *ssa.Program, cfg *Config, funcByName map[string]*ssa.Function, solverKind string, timeoutS int) (*Ctx, error) {
 	s, err := newSolver(solverKind, timeoutS)
@@ -459,6 +479,18 @@ func (c *Ctx) runCase(entry *ssa.Function, presc []int) (cr *CaseResult) {
 	t0 := time.Now()
 	c.resetCase()
 	c.presc = presc
+	c.concrete = globalReplay
+	if c.dbgPendingModel != nil {
+		c.dbgModel = c.dbgPendingModel
+		c.dbgOrder = nil
+		c.dbgPer = map[ssa.Instruction][]string{}
+		c.dbgMemo = map[int]uint64{}
+	}
+	if c.concrete != nil && c.concrete.Params != nil {
+		for k, v := range c.concrete.Params {
+			c.cfg.Params[k] = v
+		}
+	}
 	cr = &CaseResult{presc: presc}
 	defer func() {
 		if r := recover(); r != nil {
@@ -536,3 +568,67 @@ func (c *Ctx) runCase(entry *ssa.Function, presc []int) (cr *CaseResult) {
 }
 
 var _ = types.Identical
+
+func diffReplay(prog *ssa.Program, cfg *Config, funcByName map[string]*ssa.Function, path, tier, solverKind string, timeoutS int) {
+	rd, err := os.ReadFile(path)
+	if err != nil {
+		fmt.Println(err)
+		return
+	}
+	rf := &replayFile{}
+	json.Unmarshal(rd, rf)
+	entry := funcByName[rf.Entry]
+	lcfg := *cfg
+	lcfg.Params = map[string]int{}
+	for _, e := range cfg.Entries {
+		if e.Name == rf.Entry {
+			for k, v := range e.Params[tier] {
+				lcfg.Params[k] = v
+			}
+		}
+	}
+	run := func(concrete bool) *Ctx {
+		c, _ := newCtx(prog, &lcfg, funcByName, solverKind, timeoutS)
+		c.funcsSeen, c.stubsHit, c.intrHit = map[string]int{}, map[string]int{}, map[string]int{}
+		c.unwind = 64
+		if concrete {
+			globalReplay = rf
+		} else {
+			globalReplay = nil
+		}
+		c.dbgPendingModel = rf.Vars
+		var presc []int
+		// the symbolic run follows the same case: prescription from the choices, discovered on the fly
+		c.dbgChoices = rf.Choices
+		cr := c.runCase(entry, presc)
+		fmt.Printf("run concrete=%v: violations=%d incon=%v\n", concrete, len(cr.Violations), cr.Incon)
+		for _, v := range cr.Violations {
+			fmt.Printf("   violation %s (%s)\n", v.Label, v.Kind)
+		}
+		c.solver.Close()
+		return c
+	}
+	a := run(true)
+	b := run(false)
+	cnt := map[ssa.Instruction]int{}
+	for i, r := range a.dbgOrder {
+		k := cnt[r.in]
+		cnt[r.in]++
+		lst := b.dbgPer[r.in]
+		if k >= len(lst) {
+			fmt.Printf("DIVERGENCE at concrete step %d: %s in %s at %s executed %d times concretely but only %d times (with true pc) symbolically; concrete value %s\n", i, r.in.String(), r.fn, prog.Fset.Position(r.in.Pos()), k+1, len(lst), r.val)
+			return
+		}
+		if lst[k] != r.val {
+			fmt.Printf("DIVERGENCE at concrete step %d: %s in %s at %s: concrete %s symbolic-under-model %s\n", i, r.in.String(), r.fn, prog.Fset.Position(r.in.Pos()), r.val, lst[k])
+			// context: previous few steps
+			for j := i - 6; j < i; j++ {
+				if j >= 0 {
+					fmt.Printf("   before: %s = %s  (%s)\n", a.dbgOrder[j].in.String(), a.dbgOrder[j].val, a.dbgOrder[j].fn)
+				}
+			}
+			return
+		}
+	}
+	fmt.Println("no divergence in recorded values")
+}
